@@ -51,10 +51,10 @@ def marker_strings(rng, n_random):
     return out
 
 
-def part_strings(rng, n_random):
+def part_strings(rng, n_random, maxlen=5):
     out = []
     alpha = [b"a", b"g", b",", b"_", b" ", b">", b"\n", b"\xc3"]
-    for L in range(0, 5):
+    for L in range(0, maxlen):
         for seq in itertools.product(alpha, repeat=L):
             out.append(b"".join(seq))
     fields = [
@@ -94,9 +94,13 @@ def ph_strings(rng, n_random):
     return out
 
 
-def matcher_level(chk, thorough):
+def matcher_level(chk, thorough, batches):
     import django_components.dependencies as D
     rng = chk.rng
+
+    def batch(tag, case_type, fn, terms, shard, strs, what, kind):
+        batches.append((tag, case_type, fn, terms, shard, None,
+                        lambda i: chk.disagree(what, {"kind": kind, "bytes": list(strs[i])})))
     # markers
     strs = marker_strings(rng, 6000 if thorough else 1200)
     terms = []
@@ -105,20 +109,16 @@ def matcher_level(chk, thorough):
         out = D.COMPONENT_COMMENT_REGEX.sub(lambda m: (found.append(m.group("data")), b"")[1], s)
         terms.append("(%s, %s, %s)" % (cstr(s), clist([cstr(d) for d in found]), cstr(out)))
         chk.count(("marker", s), len(found) >= 1 and len(out) > 0, kind="matcher:marker")
-    bad = C.coq_eval_cases("C04", "marker", IMPORTS, "marker_case", "check_marker", terms, shard=1500)
-    for i in bad[:10]:
-        chk.disagree("hand matcher != COMPONENT_COMMENT_REGEX.sub", {"kind": "marker", "bytes": list(strs[i])})
+    batch("marker", "marker_case", "check_marker", terms, 450, strs, "hand matcher != COMPONENT_COMMENT_REGEX.sub", "marker")
     # parts
-    strs = part_strings(rng, 4000 if thorough else 800)
+    strs = part_strings(rng, 4000 if thorough else 800, 5 if thorough else 4)
     terms = []
     for s in strs:
         m = D.SCRIPT_NAME_REGEX.match(s)
         g = None if m is None else "(%s, %s, %s, %s)" % tuple(cstr(m.group(k)) for k in ("comp_cls_hash", "id", "js", "css"))
         terms.append("(%s, %s)" % (cstr(s), copt(g)))
         chk.count(("part", s), m is not None, kind="matcher:part")
-    bad = C.coq_eval_cases("C04", "part", IMPORTS, "part_case", "check_part", terms, shard=2500)
-    for i in bad[:10]:
-        chk.disagree("hand matcher != SCRIPT_NAME_REGEX.match", {"kind": "part", "bytes": list(strs[i])})
+    batch("part", "part_case", "check_part", terms, 700, strs, "hand matcher != SCRIPT_NAME_REGEX.match", "part")
     # placeholders
     strs = ph_strings(rng, 3000 if thorough else 600)
     terms = []
@@ -131,9 +131,7 @@ def matcher_level(chk, thorough):
         out = D.PLACEHOLDER_REGEX.sub(rep, s)
         terms.append("(%s, %s)" % (cstr(s), cstr(out)))
         chk.count(("ph", s), n[0] >= 1, kind="matcher:placeholder")
-    bad = C.coq_eval_cases("C04", "ph", IMPORTS, "ph_case", "check_ph", terms, shard=1500)
-    for i in bad[:10]:
-        chk.disagree("hand matcher != PLACEHOLDER_REGEX.sub", {"kind": "placeholder", "bytes": list(strs[i])})
+    batch("ph", "ph_case", "check_ph", terms, 400, strs, "hand matcher != PLACEHOLDER_REGEX.sub", "placeholder")
 
 
 # ================================================================================================
@@ -155,7 +153,8 @@ def build_zoo():
     E = mk("ZooE", js=None, css=None)                             # nothing at all
     F = mk("Zoo_F9", js="/*F*/", css=".f{}", Media=type("Media", (), {"js": [mark_safe("<script>inline()</script>")]}))  # tag without URL
     G = mk("动物园", js="/*G*/", css=None, Media=type("Media", (), {"js": ["https://cdn.x/g.js", "/abs/g.js", "z/q&r.js"], "css": {"screen": ["z/g.css"]}}))
-    zoo = [A, B, Cc, D_, E, F, G]
+    H = mk("ZooH", js="var s='</body>';", css=".h::after{content:'</head >'}")      # end-tag text inside the generated blocks
+    zoo = [A, B, Cc, D_, E, F, G, H]
     hashes = {}
     for cls in zoo:
         cache_component_js(cls)
@@ -201,6 +200,11 @@ def synth_docs(rng, zoo, hashes, n_random):
     for ph in phs:
         yield b"<head>" + ph + b"</head><body>" + marker(0) + marker(1) + b"</body>", ("ph", ph.decode())
         yield ph + marker(2) + ph, ("ph", ph.decode())
+    # end-tag text inside the inserted JS / CSS (class 7): the search for </head> / </body> must not look there
+    for ph in phs[:3]:
+        yield b"<head>" + marker(7) + b"</head><body>" + ph + b"x</body>", ("endtag-in-block", ph.decode())
+        yield ph + b"<body>" + marker(7) + marker(0) + b"</body></head>", ("endtag-in-block", ph.decode())
+        yield b"<head></head>" + ph + ph + marker(7) + b"<body></body>", ("endtag-in-block", ph.decode())
     # random
     for _ in range(n_random):
         parts = []
@@ -235,7 +239,7 @@ def standins(final, js_b, css_b):
     return fb, js_s, css_s
 
 
-def pipeline_level(chk, thorough):
+def pipeline_level(chk, thorough, batches):
     from django_components import render_dependencies
     zoo, hashes = build_zoo()
     tbl = [(cls._class_hash, U.cinfo_of(cls)) for cls in zoo]
@@ -243,7 +247,7 @@ def pipeline_level(chk, thorough):
     extra = "Definition zoo : list (str * cinfo) := %s." % tbl_term
     pipe_terms, asm_terms, pipe_cases, asm_cases = [], [], [], []
     by_hash = {cls._class_hash: cls for cls in zoo}
-    for content, label in synth_docs(chk.rng, zoo, hashes, 2500 if thorough else 500):
+    for content, label in synth_docs(chk.rng, zoo, hashes, 2500 if thorough else 300):
         for typ in ("document", "fragment"):
             outcome, js_b, css_b = U.run_process(content, typ)
             nontriv = outcome[0] == "ok" and len([t for t in outcome[2] + outcome[3] if t[0] in ("inline", "media")]) >= 2 and label[0] != "seq" or \
@@ -268,15 +272,16 @@ def pipeline_level(chk, thorough):
                     chk.fail("c04-marker-survives", "render marker survives", {"kind": "pipe", "type": typ, "content": content.decode()})
             if outcome[0] == "ok":
                 final = render_dependencies(content, typ)
-                fb, js_s, css_s = standins(final, js_b, css_b)
+                if label[0] == "endtag-in-block":
+                    fb, js_s, css_s = U.b(final), js_b, css_b          # the real blocks, not stand-ins
+                else:
+                    fb, js_s, css_s = standins(final, js_b, css_b)
                 asm_terms.append("(%s, %s, %s, %s, %s)" % (U.c_rtype(typ), cstr(outcome[1]), cstr(js_s), cstr(css_s), cstr(fb)))
                 asm_cases.append((typ, content))
-    bad = C.coq_eval_cases("C04", "pipe", IMPORTS, "pipe_case", "check_pipe", pipe_terms, shard=400, extra_defs=extra)
-    for i in bad[:10]:
-        chk.disagree("model process != _process_dep_declarations", {"kind": "pipe", "type": pipe_cases[i][0], "content": pipe_cases[i][1].decode("utf-8", "replace")})
-    bad = C.coq_eval_cases("C04", "asm", IMPORTS, "asm_case", "check_asm", asm_terms, shard=600)
-    for i in bad[:10]:
-        chk.disagree("model assemble != render_dependencies", {"kind": "asm", "type": asm_cases[i][0], "content": asm_cases[i][1].decode("utf-8", "replace")})
+    batches.append(("pipe", "pipe_case", "check_pipe", pipe_terms, 110, extra, lambda i: chk.disagree(
+        "model process != _process_dep_declarations", {"kind": "pipe", "type": pipe_cases[i][0], "content": pipe_cases[i][1].decode("utf-8", "replace")})))
+    batches.append(("asm", "asm_case", "check_asm", asm_terms, 250, None, lambda i: chk.disagree(
+        "model assemble != render_dependencies", {"kind": "asm", "type": asm_cases[i][0], "content": asm_cases[i][1].decode("utf-8", "replace")})))
     return zoo  # keep the classes alive until the Coq comparison is over
 
 
@@ -295,6 +300,10 @@ def classify(prog, what):
 def e2e_oracle(chk, bu, typ, path, final, rec):
     """Direct property oracle on the final HTML of one rendering path. Returns the visible instance sequence."""
     prog = bu.prog
+    if path == U.PATHS[5]:
+        # DynamicComponent.render(): the inner root render has already inserted the tags; the dynamic component then marks
+        # the root elements of its own output - inserted <script>/<style>/<link> included - with its data-djc-id attribute
+        final = re.sub(r' data-djc-id-\w{6}=""', "", final)
     seq, nJ, nC = U.visible(final)
     order = [bu.clsof(x) for x in U.first_occ(seq)]
     idx_order = [x for x in U.first_occ(seq) if x not in ("P", "D")]
@@ -413,7 +422,7 @@ def run_prog(chk, prog, typs, paths, terms, label, coq=True):
                           sample={"page": U.page_src(prog), "classes": [c["name"] for c in prog["classes"]], "type": typ, "path": path,
                                   "instances": seq} if nontriv and label == "random" else None)
                 # ---- emit side: one call of insert_component_dependencies_comment per rendered instance ----
-                exp_hashes = [bu.clsof(x)._class_hash for x in seq]
+                exp_hashes = [(bu.page2_cls if (x == "P" and path == U.PATHS[4]) else bu.clsof(x))._class_hash for x in seq]
                 if path == U.PATHS[5]:
                     exp_hashes = [bu.clsof("D")._class_hash] + exp_hashes
                 if sorted(c[0] for c in er.calls) != sorted(exp_hashes):
@@ -433,23 +442,28 @@ def run_prog(chk, prog, typs, paths, terms, label, coq=True):
                 pieces, tail = cut
                 if [p[0] for _, p in pieces] != [bu.clsof(x)._class_hash for x in mseq]:
                     chk.disagree("markers in document order != component instances visible in the document", dict(rec, visible=mseq))
+                import django_components.dependencies as D
+                for (h, rid, jsh, cssh, lit) in er.calls:
+                    if lit != D.COMPONENT_DEPS_COMMENT.format(data="%s,%s,%s,%s" % (h, rid, jsh, cssh)):
+                        chk.disagree("marker text written by insert_component_dependencies_comment != COMPONENT_DEPS_COMMENT.format(hash,id,js,css)",
+                                     dict(rec, marker=lit))
                 if not coq:
                     continue
-                terms["doc"].append(U.c_doc_case(mid, pieces, tail))
-                terms["doc_cases"].append(rec)
                 outcome, js_b, css_b = U.run_process(mid, typ)
-                terms["pipe"].append("(%s, %s, %s, %s)" % (U.c_rtype(typ), U.c_table(bu.table(with_page)), cstr(U.b(mid)), U.c_outcome(outcome)))
-                terms["pipe_cases"].append(rec)
-                if outcome[0] == "ok":
-                    text = outcome[1].decode("utf-8")
-                    ph_pieces, ph_tail = U.cut_at_placeholders(text)
-                    terms["phdoc"].append(U.c_phdoc_case(text, ph_pieces, ph_tail))
-                    terms["phdoc_cases"].append(rec)
-                    fb, js_s, css_s = standins(final, js_b, css_b)
-                    terms["asm"].append("(%s, %s, %s, %s, %s)" % (U.c_rtype(typ), cstr(outcome[1]), cstr(js_s), cstr(css_s), cstr(fb)))
-                    terms["asm_cases"].append(rec)
-                else:
+                if outcome[0] != "ok":
                     chk.fail(classify(prog, "exception"), "_process_dep_declarations failed on rendered content: %r" % (outcome,), rec)
+                    terms["pipe"].append("(%s, %s, %s, %s)" % (U.c_rtype(typ), U.c_table(bu.table(with_page)), cstr(U.b(mid)), U.c_outcome(outcome)))
+                    terms["pipe_cases"].append(rec)
+                    continue
+                text = outcome[1].decode("utf-8")
+                if text != "".join(t for t, _ in pieces) + tail:
+                    chk.fail(classify(prog, "marker"), "content returned by _process_dep_declarations != the rendered content minus the recorded markers", rec)
+                    continue
+                ph_pieces, ph_tail = U.cut_at_placeholders(text)
+                fb, js_s, css_s = standins(final, js_b, css_b)
+                terms["page"].append(U.c_page_case(typ, bu.table(with_page), pieces, tail, (ph_pieces, ph_tail) if ph_pieces else None,
+                                                   outcome[2], outcome[3], js_s, css_s, fb))
+                terms["page_cases"].append(rec)
             # the paths must deliver the same document (ids are deterministic)
             ref = finals.get(U.PATHS[0])
             if ref is not None and U.PATHS[1] in finals and U.norm_ids(finals[U.PATHS[1]]) != U.norm_ids(ref):
@@ -460,11 +474,11 @@ def run_prog(chk, prog, typs, paths, terms, label, coq=True):
 
 
 def small_programs():
-    """Exhaustive small pages: two classes (with / without js, css, shared Media file), every page of <= 3 uses
-    drawn from {A, B, A[B], for2(A), if-false(B)}."""
-    def cls(name, js, css, mjs, mcss, tpl=None, base=None, root="div"):
-        return {"name": name, "base": base, "js": js, "css": css, "mjs": mjs, "mcss": mcss, "jsdata": False, "cssdata": False,
-                "root": root, "tpl": tpl or []}
+    """Exhaustive small pages: small class libraries (with / without js, css, shared Media files, named slots, Media.extend
+    variants), every page of <= 3 (<= 2) uses drawn from a list of atoms."""
+    def cls(name, js, css, mjs, mcss, tpl=None, base=None, root="div", **kw):
+        return dict({"name": name, "base": base, "js": js, "css": css, "mjs": mjs, "mcss": mcss, "jsdata": False, "cssdata": False,
+                     "root": root, "tpl": tpl or []}, **kw)
     variants = [
         [cls("Aa", "/*a*/", ".a{}", ["s/a.js", "s/sh.js"], {"all": ["s/a.css"]}, tpl=[["slot", []]]), cls("Bb", "/*b*/", None, ["s/sh.js"], None)],
         [cls("Aa", None, ".a{}", [], ["s/sh.css"], tpl=[["slot", [["c", 1, None]]]]), cls("Bb", "/*b*/", ".b{}", ["s/b.js"], {"print": ["s/sh.css"]})],
@@ -477,6 +491,29 @@ def small_programs():
             for seq in itertools.product(range(len(atoms)), repeat=L):
                 for shell, jp, cp in (("full", 0, 0), ("none", 1, 1)) if L < 3 else (("full", 0, 0),):
                     yield {"classes": classes, "page": [atoms[i] for i in seq], "shell": shell, "js_ph": jp, "css_ph": cp}
+    # named slots / named fills / the dynamic component
+    classes = [cls("Aa", "/*a*/", ".a{}", ["s/a.js"], {"screen": ["s/a.css"], "print": ["s/a.css"]},
+                   tpl=[["slot", []], ["for", 2, [["nslot", "n1", [["c", 1, None]]]]]]),
+               cls("__9", "/*b*/", ".b{}", ["s/a.js", "s/b.js"], {"all": ["s/a.css"]}),
+               cls("Unused_", "/*never*/", ".never{}", ["s/never.js"], ["s/never.css"])]
+    atoms = [["c", 0, None], ["cf", 0, [["n1", [["c", 1, None]], None]]], ["cf", 0, [["d", [["c", 1, None]], None], ["n1", [], None]]],
+             ["dyn", 0, None, "name"], ["dyn", 1, None, "var"], ["dynf", 0, [["n1", [["c", 0, None]], "yes"], ["zz", [["c", 2, None]], None]]],
+             ["for", 0, [["c", 2, None]]], ["cf", 0, [["n1", [["c", 2, None]], "no"]]]]
+    for L in range(0, 3):
+        for seq in itertools.product(range(len(atoms)), repeat=L):
+            for shell, jp, cp in (("full", 0, 0), ("nohead", 1, 0)):
+                yield {"classes": classes, "page": [atoms[i] for i in seq], "shell": shell, "js_ph": jp, "css_ph": cp}
+    # inheritance chain with shared files, Media.extend = False / [list], two bases
+    classes = [cls("Base", "/*base*/", None, ["s/x.js", "s/sh.js"], {"all": ["s/x.css"]}),
+               cls("Mid", None, ".m{}", ["s/m.js", "s/sh.js"], None, base=0),
+               cls("Leaf", "/*leaf*/", None, ["s/sh.js"], {"print": ["s/x.css"]}, base=1, extend=False),
+               cls("Pick", None, None, ["s/p.js"], {"print": ["s/x.css"]}, base=0, extend=[2]),
+               cls("Two", "/*two*/", None, [], None, base=1, base2=3),
+               cls("Deep", None, None, [], None, base=4)]
+    atoms = [["c", i, None] for i in range(6)]
+    for L in range(0, 3):
+        for seq in itertools.product(range(len(atoms)), repeat=L):
+            yield {"classes": classes, "page": [atoms[i] for i in seq], "shell": "full", "js_ph": 0, "css_ph": 0}
 
 
 def load_corpus():
@@ -489,24 +526,28 @@ def load_corpus():
 
 
 def new_terms():
-    return {k: [] for k in ("doc", "doc_cases", "phdoc", "phdoc_cases", "pipe", "pipe_cases", "asm", "asm_cases")}
+    return {k: [] for k in ("page", "page_cases", "pipe", "pipe_cases")}
 
 
-def eval_e2e_terms(chk, terms, tag):
-    bad = C.coq_eval_cases("C04", tag + "doc", IMPORTS, "doc_case", "check_doc", terms["doc"], shard=120)
-    for i in bad[:5]:
-        chk.disagree("rendered content != text/marker/.../text of the recorded insert_component_dependencies_comment calls with clean text and "
-                     "well-formed records (hypotheses of harvest_emit_roundtrip / final_html_counts)", terms["doc_cases"][i])
-    bad = C.coq_eval_cases("C04", tag + "phdoc", IMPORTS, "phdoc_case", "check_phdoc", terms["phdoc"], shard=120)
-    for i in bad[:5]:
-        chk.disagree("marker-free content != text/placeholder/.../text with placeholder-free text (hypotheses of placeholders_all_replaced / "
-                     "assembled_occurrences)", terms["phdoc_cases"][i])
-    bad = C.coq_eval_cases("C04", tag + "pipe", IMPORTS, "pipe_case", "check_pipe", terms["pipe"], shard=120)
-    for i in bad[:5]:
-        chk.disagree("model process != _process_dep_declarations on a rendered page", terms["pipe_cases"][i])
-    bad = C.coq_eval_cases("C04", tag + "asm", IMPORTS, "asm_case", "check_asm", terms["asm"], shard=120)
-    for i in bad[:5]:
-        chk.disagree("model assemble != render_dependencies on a rendered page", terms["asm_cases"][i])
+PAGE_BITS = {1: "emit-side hypotheses (clean text, well-formed records of the recorded calls)", 2: "placeholder hypotheses",
+             4: "model process != _process_dep_declarations", 8: "model assemble != render_dependencies"}
+
+
+def e2e_batches(chk, terms, tag, batches):
+    def bad_page(i):
+        d = U.page_diag("C04", IMPORTS, [terms["page"][i]])
+        bits = [PAGE_BITS[b] for b in PAGE_BITS if d and d[0] & b]
+        chk.disagree("rendered page: model != implementation: " + ("; ".join(bits) or "page_diag not evaluated"), terms["page_cases"][i])
+    batches.append((tag + "page", "page_case", "check_page", terms["page"], 40, None, bad_page))
+    batches.append((tag + "pipe", "pipe_case", "check_pipe", terms["pipe"], 60, None,
+                    lambda i: chk.disagree("model process != _process_dep_declarations on a rendered page", terms["pipe_cases"][i])))
+
+
+def eval_all(chk, batches):
+    bad = U.eval_batches("C04", IMPORTS, [b[:6] for b in batches if b[3]])
+    for b in batches:
+        for i in bad.get(b[0], [])[:8]:
+            b[6](i)
 
 
 def run(tier, seed):
@@ -534,16 +575,19 @@ def run(tier, seed):
         run_prog(chk, case["program"], case.get("types", ["document", "fragment"]), case.get("paths", U.PATHS), terms, "corpus")
     lap("corpus")
     # ---- 1. matchers ----
-    matcher_level(chk, thorough)
+    batches = []
+    matcher_level(chk, thorough, batches)
     lap("matchers")
     # ---- 2. pipeline on synthetic documents ----
-    keep = pipeline_level(chk, thorough)
+    keep = pipeline_level(chk, thorough, batches)
     lap("pipeline")
     # ---- 3. end to end ----
-    for prog in small_programs():
-        run_prog(chk, prog, ["document", "fragment"], [U.PATHS[0], U.PATHS[2]], terms, "small", coq=(len(prog["page"]) <= 2))
+    for n, prog in enumerate(small_programs()):
+        L = len(prog["page"])
+        run_prog(chk, prog, ["document", "fragment"], [U.PATHS[0], U.PATHS[2]], terms, "small",
+                 coq=(L <= 1 or (L == 2 and (thorough or n % 4 == 0))))
     lap("e2e-small-render")
-    nrand = 3000 if thorough else 320
+    nrand = 6000 if thorough else 900
     for k in range(nrand):
         prog = U.gen_prog(chk.rng)
         if k % 3 == 0:
@@ -551,10 +595,11 @@ def run(tier, seed):
         else:
             paths = [U.PATHS[0 if k % 2 else 3], chk.rng.choice([U.PATHS[1], U.PATHS[2], U.PATHS[4], U.PATHS[4], U.PATHS[5]])]
         run_prog(chk, prog, ["document", "fragment"] if k % 2 == 0 else [chk.rng.choice(["document", "fragment"])], paths, terms, "random",
-                 coq=(k % 2 == 0))
+                 coq=(k % (2 if thorough else 4) == 0))
     lap("e2e-random-render")
-    eval_e2e_terms(chk, terms, "e2e")
-    lap("e2e-coq")
+    e2e_batches(chk, terms, "e2e", batches)
+    eval_all(chk, batches)
+    lap("coq-eval")
     chk.extra["phase_wall_s"] = phase
     del keep
     chk.assumptions = [
